@@ -151,6 +151,16 @@ Theorem C06_rr_torn_counter_exact : forall sched c ts, Forall rr_wf ts ->
 Proof. exact rr_torn_counter_exact_l. Qed.
 Print Assumptions C06_rr_torn_counter_exact.
 
+(* ---- the random picker (default strategy): its only shared state is the index source ---- *)
+(* for every index source that returns indices below the ring length (one linearizable action per draw -
+   math/rand's package-level generator), EVERY schedule, any number of goroutines and picks: every pick
+   returns a member of the ring (a target with a positive weight), never a panic *)
+Theorem C06_rnd_pick_member : forall {St} (draw : St -> nat -> St * nat) ring,
+  (forall st n, 0 < n -> snd (draw st n) < n) -> ring <> [] ->
+  forall sched st ts, Forall (rn_ok ring) ts -> Forall (rn_ok ring) (snd (run (rn_step draw ring) sched st ts)).
+Proof. exact @rnd_pick_member_l. Qed.
+Print Assumptions C06_rnd_pick_member.
+
 (* ---- the redirect URL ---- *)
 (* finding F-C06-1: A looks up, B looks up, A continues: A is redirected to B's URL *)
 Theorem C06_redirect_cross_talk_refuted :
